@@ -203,6 +203,15 @@ func regression(class string, seed int64) []scenario {
 		sc.Writes = []write{{N: 300, Flush: true, Hold: 5}}
 		sc.Trailing = true
 		add(sc)
+	case "listen-twice":
+		for i, mode := range []string{"serial", "tcp", "serial", "tcp"} {
+			sc := base(mode, false, 64)
+			sc.A = []item{arq(100), arq(5)}
+			sc.Writes = []write{{N: 30, Flush: true}}
+			sc.End = []string{"remote", "remote", "close", "close"}[i]
+			sc.Again = true
+			add(sc)
+		}
 	case "offline-start":
 		for _, mode := range []string{"serial", "tcp"} {
 			sc := base(mode, true, 4096)
